@@ -57,6 +57,8 @@ def spec_strategy(methods=('nla', 'chic'), max_contigs=6, max_mols=14, extras=Tr
                     other = draw(st.integers(0, nc - 1))
                     if other != src['tid'] and other not in empty and src['site'] < contigs[other][1] - 140:
                         mol.update(tid=other, umi=src['umi'])
+            elif not mol['rev'] and draw(st.integers(0, 11)) == 0:
+                mol['site'] = 0        # a forward molecule cut at the very first base of its contig
             elif mols and draw(st.integers(0, 3)) == 0:
                 # a molecule about half a buffer window (5000 bp) downstream of an earlier one: when it is read, only part
                 # of what is buffered around the earlier site may leave the buffer
